@@ -125,9 +125,14 @@ def build(cs, tier):
                 ns, p = names[0]
                 if ns in ('iso', 'joliet'):
                     h.apply({'op': 'set_hidden', '%s_path' % ns: p})
-    if h.sess.model.boot is not None and rng.random() < 0.3:
-        h.apply({'op': 'add_hard_link', 'boot_catalog_old': True,
-                 'new': ('iso', join('/', h.gen.iso_file_name(cfg.level))), **({'rr_name': h.gen.rr_name(0)} if cfg.rr else {})})
+    if h.sess.model.boot is not None and rng.random() < 0.4:
+        # further names for the catalog (registered after the ones add_eltorito made)
+        if cfg.joliet and rng.random() < 0.4:
+            h.apply({'op': 'add_hard_link', 'boot_catalog_old': True, 'new': ('joliet', join('/', h.gen.uni_name()))})
+        if rng.random() < 0.8:
+            par = g.pick_dir(h.sess.model, 'iso', 4) if rng.random() < 0.5 else '/'
+            h.apply({'op': 'add_hard_link', 'boot_catalog_old': True,
+                     'new': ('iso', join(par, h.gen.iso_file_name(cfg.level))), **({'rr_name': h.gen.rr_name(0)} if cfg.rr else {})})
     n_boot = len(h.ops)
     h.extend(rng.choice([0, 0, 4, 10]))
     ops = list(h.ops)
@@ -252,6 +257,21 @@ def check(cfg, ops, seed, counters):
         sess.close()
         return [{'key': 'write-raises:%s@%s' % (oc.exc_class, oc.exc_where), 'detail': oc.exc_msg}], None
     data = img.getvalue()
+    # the catalog through every one of its names on the object that mastered the image
+    if sess.model.boot is not None:
+        import io as _io
+        et0 = iet.decode(data, catalog_len=2048)
+        if et0.present:
+            cat0 = data[et0.catalog_lba * 2048:et0.catalog_lba * 2048 + 2048]
+            for ns, p in sess.model.boot['catalog']:
+                buf = _io.BytesIO()
+                try:
+                    sess.iso.get_file_from_iso_fp(buf, **{'%s_path' % ns: p})
+                    counters['live_catalog_reads'] = counters.get('live_catalog_reads', 0) + 1
+                    if buf.getvalue() != cat0:
+                        vio.append({'key': 'catalog-file:%s:live-api-bytes' % ns, 'detail': '%s read from the mastering object (%d bytes) differs from the catalog sector' % (p, len(buf.getvalue()))})
+                except Exception as e:
+                    vio.append({'key': 'catalog-file:%s:live-api-raises:%s' % (ns, type(e).__name__), 'detail': '%s: %s' % (p, e)})
     s2, oc = sess.reopen(data)
     if not oc.ok:
         key = 'reopen-raises:%s@%s' % (oc.exc_class, oc.exc_where)
